@@ -44,6 +44,7 @@ import Pumpkin.Model.ImplicitReason
 import Pumpkin.Model.Lits
 import Pumpkin.Model.SemMin
 import Pumpkin.Model.RecMin
+import Pumpkin.Model.Propagation
 import Pumpkin.Check.Rup
 import Pumpkin.Check.MaxSat
 import Pumpkin.Check.DrcpCheck
@@ -165,6 +166,52 @@ def acyclicRounds (reason : Nat → List Nat) (nodes : List Nat) : Nat → List 
   | k + 1, ranked =>
     let ranked' := nodes.filter (fun p => ranked.contains p || (reason p).all ranked.contains)
     if ranked'.length == ranked.length then nodes.all ranked.contains else acyclicRounds reason nodes k ranked'
+
+
+/-! propagation correspondence (`fix` records): the real solver's domains at a decision point against
+`Model/Propagation.lean`'s fixpoint, and against the verified oracle (no value of a solution pruned) -/
+def domsSub (a b : List (List Int)) : Bool :=
+  a.length == b.length && (a.zip b).all (fun p => p.1.all p.2.contains)
+
+def showDoms (d : List (List Int)) : String := " ".intercalate (d.map (fun l => "{" ++ ",".intercalate (l.map toString) ++ "}"))
+
+/-- every value that some solution of `cons` within `start` gives to a variable is still in `after` -/
+def prunedSolution (cons : List Cons) (start after : List (List Int)) : Option (List Int) :=
+  (solutions { doms := start, cons := cons }).find? (fun a => !(inDoms after a))
+
+def fixJudge (st : St) (kind : String) (root : Bool) (start : List (List Int)) (learned : Bool) (after : Option (List (List Int))) : String :=
+  let cons := st.model.cons
+  -- the model's answer: none = not modelled, some none = conflict
+  let modelAns : Option (Option (List (List Int))) :=
+    if root then Pumpkin.Pg.rootFix st.model.doms cons
+    else (Pumpkin.Pg.compileAll st.model.doms cons).map (fun ps => Pumpkin.Pg.fixpoint ps start)
+  -- (1) sound direction, judged by the oracle alone
+  match after with
+  | some aft =>
+    match prunedSolution cons start aft with
+    | some a => s!"FAIL fix {kind} pruned-solution {a} start={showDoms start} real={showDoms aft}"
+    | none =>
+      match modelAns with
+      | none => s!"ok fix {kind} oracle-only"
+      | some none =>
+        if learned then s!"ok fix {kind} learned" else
+        s!"FAIL fix {kind} model-conflict-real-none start={showDoms start} real={showDoms aft}"
+      | some (some md) =>
+        if domsSub aft md && domsSub md aft then s!"ok fix {kind} exact"
+        else if domsSub aft md then
+          (if learned then s!"ok fix {kind} learned-stronger" else s!"FAIL fix {kind} real-stronger-than-model start={showDoms start} real={showDoms aft} model={showDoms md}")
+        else s!"FAIL fix {kind} real-weaker-than-model start={showDoms start} real={showDoms aft} model={showDoms md}"
+  | none =>
+    match (solutions { doms := start, cons := cons }) with
+    | a :: _ => s!"FAIL fix {kind} conflict-with-solution {a} start={showDoms start}"
+    | [] =>
+      match modelAns with
+      | none => s!"ok fix {kind} oracle-only"
+      | some none => s!"ok fix {kind} exact"
+      | some (some md) => if learned then s!"ok fix {kind} learned" else
+        s!"FAIL fix {kind} real-conflict-model-none start={showDoms start} model={showDoms md}"
+
+def applyAtom (d : List (List Int)) (p : Atom) : List (List Int) := Pumpkin.AtomRup.assume d p
 
 def respond (st : St) (line : String) : St × Option String :=
   let ts := tokens line
@@ -597,6 +644,27 @@ def respond (st : St) (line : String) : St × Option String :=
        match Pumpkin.Implicit.implicitReason t q with
        | some m => if m == rs then (st, some "ok implicit") else (st, some s!"FAIL implicit model={repr m} impl={repr rs}")
        | none => (st, some s!"FAIL implicit model-has-no-reason-for trail={repr t} queried={repr q} impl={repr rs}"))
+  | "fix" :: "root" :: rest =>
+    -- `fix root (ok <doms> | conflict)`: the state after posting everything, from the declared domains
+    match rest with
+    | ["conflict"] => (st, some (fixJudge st "root" true st.model.doms false none))
+    | "ok" :: rest =>
+      match pList (pList pInt) rest with
+      | some (aft, []) => (st, some (fixJudge st "root" true st.model.doms false (some aft)))
+      | _ => (st, some "FAIL fix unparsed")
+    | _ => (st, some "FAIL fix unparsed")
+  | "fix" :: "step" :: l :: rest =>
+    -- `fix step <learned 0|1> <doms before> <decision> (ok <doms after> | conflict)`
+    match pList (pList pInt) rest with
+    | some (bef, rest) =>
+      match pAtom rest with
+      | some (p, ["conflict"]) => (st, some (fixJudge st "step" false (applyAtom bef p) (l != "0") none))
+      | some (p, "ok" :: rest) =>
+        match pList (pList pInt) rest with
+        | some (aft, []) => (st, some (fixJudge st "step" false (applyAtom bef p) (l != "0") (some aft)))
+        | _ => (st, some "FAIL fix unparsed")
+      | _ => (st, some "FAIL fix unparsed")
+    | none => (st, some "FAIL fix unparsed")
   | "litsok" :: _ => (st, some "ok litsok")
   | "negok" :: _ => (st, some "ok negok")
   | "panic" :: _ | "nonterm" :: _ | "partial" :: _ | "bad" :: _ | "branchviolation" :: _ | "hang" :: _ =>
